@@ -232,15 +232,34 @@ pub fn gen(seed: u64, n: usize, out: &mut Out) {
                 // steiner_tree on connected undirected simple graphs (UnGraph only), and page_rank on a graph and a relabelled twin
                 let n = 2 + r.below(6);
                 let mut edges: Vec<(usize, usize, i64)> = Vec::new();
-                for i in 1..n { edges.push((r.below(i), i, 1 + r.below(6) as i64)); }           // a random spanning tree
-                for s in 0..n { for t in s + 1..n { if r.chance(25) && !edges.iter().any(|e| (e.0, e.1) == (s, t) || (e.0, e.1) == (t, s)) { edges.push((s, t, 1 + r.below(9) as i64)); } } }
-                let a = AbsGraph { directed: false, n, edges };
-                let g = build_graph::<Undirected, u32>(&a, &mut r);
+                // 45%: weights 1..2 only, denser: many equally short paths (their union need not be a tree)
+                let ties = r.chance(45);
+                let (w1, w2, dens) = if ties { (2, 2, 35) } else { (6, 9, 25) };
+                let n = if ties { 4 + r.below(5) } else { n };
+                for i in 1..n { edges.push((r.below(i), i, 1 + r.below(w1) as i64)); }           // a random spanning tree
+                for s in 0..n { for t in s + 1..n { if r.chance(dens) && !edges.iter().any(|e| (e.0, e.1) == (s, t) || (e.0, e.1) == (t, s)) { edges.push((s, t, 1 + r.below(w2) as i64)); } } }
+                // 20%: a hub with adjacent terminal pairs and pendant terminals, unit weights: the shortest paths chosen for two
+                // closure edges can close a triangle through the hub (the union of the paths is then not a tree)
+                let gadget = r.chance(20);
+                let mut gterms: Vec<usize> = Vec::new();
+                let (n, edges) = if gadget {
+                    let pairs = 1 + r.below(2); let pend = 1 + r.below(3);
+                    let mut es: Vec<(usize, usize, i64)> = Vec::new();
+                    let mut k = 1;
+                    for _ in 0..pairs { es.push((0, k, 1)); es.push((0, k + 1, 1)); es.push((k, k + 1, 1)); gterms.push(k); gterms.push(k + 1); k += 2; }
+                    for _ in 0..pend { es.push((0, k, 1)); if r.chance(80) { gterms.push(k); } k += 1; }
+                    if r.chance(40) { es.push((k - 1, k, 1)); k += 1; }
+                    (k, es)
+                } else { (n, edges) };
+                let a0 = AbsGraph { directed: false, n, edges };
+                let (a, gperm) = if gadget { relabelled(&a0, &mut r) } else { (a0, (0..n).collect()) };
+                let g = if gadget { plain_graph::<Undirected>(&a) } else { build_graph::<Undirected, u32>(&a, &mut r) };
                 view_hdr!(&g, |e| e.id().index(), g.edge_count(), g.edge_bound(), id, 0, out, dump_view);
                 let ids: Vec<usize> = (0..g.node_count()).collect();
                 let nt = 2 + r.below(3.min(n - 1));
                 let mut pool = ids.clone(); shuffle(&mut r, &mut pool);
-                let terms: Vec<usize> = pool[..nt.min(pool.len())].to_vec();
+                let terms: Vec<usize> = if gadget { let mut t: Vec<usize> = gterms.iter().map(|x| gperm[*x]).collect(); shuffle(&mut r, &mut t); t } else { pool[..nt.min(pool.len())].to_vec() };
+                if gadget { out.stat("kind_steiner_gadget"); }
                 let tn: Vec<NodeIndex<u32>> = terms.iter().map(|x| NodeIndex::new(*x)).collect();
                 match catch_unwind(AssertUnwindSafe(|| algo::steiner_tree(&g, &tn))) {
                     Ok(t) => {
